@@ -171,6 +171,19 @@ def check_message(ctx, case, toks, b, tag, converters=True):
         ctx.dist['%s-undecodable-%d' % (tag, lib.err_code(e))] += 1
         return
     mouts = lib.run_model(model_wire_lines(toks, flat))
+    if res[0] == 'err' and 'ids' in case:
+        # the hierarchical view of a decodable message could not be built at all
+        hz = B.wiring_hazards(case['ids'], case.get('version', 33))
+        if 'refval-definition-under-204' in hz or 'marker-under-204' in hz:
+            ctx.violation({'kind': 'C09-wire-fails', 'case': case, 'error_class': res[1],
+                           'cause': 'refval-definition-under-204' if 'refval-definition-under-204' in hz else 'marker-under-204'},
+                          '%s: TemplateData.wire raises (error class %d) on a decodable message' % (tag, res[1]))
+            return
+        if 'marker-without-significance' in hz:
+            ctx.dist['wire-fails: marker operator without 008023/008024 (outside the property)'] += 1
+        else:
+            ctx.violation({'kind': 'C09-wire-fails', 'case': case, 'error_class': res[1]},
+                          '%s: TemplateData.wire raises (error class %d) on a decodable message' % (tag, res[1]))
     for si, mo in enumerate(mouts):
         n_vals = len(flat[si][1])
         if res[0] == 'err':
